@@ -333,8 +333,10 @@ def c07():
             add("C07", f"c07_remove_{'row' if is_row else 'col'}_unit_{c}x{r}", f"c07::remove_unit({b(is_row)}, {c}, {r})", c * r + 4,
                 "quick" if (c, r) in [(1, 1), (2, 2)] else "thorough", also=["C01"] if (c, r) == (1, 1) else [])
     for (c, r) in [(3, 2), (2, 2), (2, 3)]:
-        for mode in (0, 2):
+        for mode in (0,):  # remove_col with a 64-slot buffer exhausts CBMC's memory on every shape: not registered
             add("C07", f"c07_{RMODES[mode]}_tok_bigcap_{c}x{r}", f"c07::remove_tok_bigcap({mode}, {c}, {r})", c * r + max(c, r) + 3, "quick" if (c, r) == (3, 2) else "thorough", also=["C05"])
+    for cap in (16, 32):
+        add("C07", f"c07_remove_col_tok_cap{cap}_2x2", f"c07::remove_tok_cap(2, 2, 2, {cap})", 9, "quick" if cap == 32 else "thorough", also=["C05"])
     add("C07", "c07_pop_empty", "c07::pop_empty()", 4, also=["C01"])
     for (c, r) in [(2, 3), (1, 1), (0, 0)]:
         for is_row in (True, False):
@@ -643,48 +645,39 @@ FAT_PROP = {0: "C13", 1: "C13", 2: "C13", 3: "C13", 4: "C15", 5: "C15", 6: "C14"
 
 
 def wide():
-    T = "thorough"
+    T, Q = "thorough", "quick"
     for which, nm in C13_OPS.items():
         for (c, r) in [(17, 2), (33, 2), (2, 17), (8, 8)]:
-            add("C13", f"c13_{nm}_owned_wide_{c}x{r}", f"c13::inrange_b::<72>({which}, 0, {c}, {r})", max(c, r) + 3, T)
+            add("C13", f"c13_{nm}_owned_wide_{c}x{r}", f"c13::inrange_b::<72>({which}, 0, {c}, {r})", max(c, r) + 3, Q if (c, r) in [(17, 2), (33, 2), (8, 8)] else T)
         add("C13", f"c13_{nm}_viewmut_wide_18x3", f"c13::inrange_b::<72>({which}, 1, 18, 3)", 21, T, also=["C04"])
         add("C13", f"c13_{nm}_mini_wide_18x3", f"c13::inrange_b::<72>({which}, 2, 18, 3)", 21, T)
     for rows in (True, False):
         nm = "flip_rows" if rows else "flip_cols"
         for (c, r) in [(17, 2), (2, 17), (8, 8)]:
-            add("C15", f"c15_{nm}_owned_wide_{c}x{r}", f"c15::flip_b::<72>({b(rows)}, 0, {c}, {r}, 0, {c})", max(c, r) + 3, T)
-        add("C15", f"c15_{nm}_view_wide_18x3", f"c15::flip_b::<72>({b(rows)}, 1, 18, 3, 1, 18)", 21, T, also=["C04"])
-    for (c, r, mr) in [(17, 2, 1), (2, 17, 1), (2, 17, 16), (8, 8, 3)]:
-        add("C15", f"c15_translate_owned_wide_{c}x{r}_mr{mr}", f"c15::translate_b::<72>(0, {c}, {r}, 0, 0, {c}, {r}, {mr})", max(c, r) + 3, T, stubs=[ROTATE_STUB])
+            add("C15", f"c15_{nm}_owned_wide_{c}x{r}", f"c15::flip_b::<72>({b(rows)}, 0, {c}, {r}, 0, {c})", max(c, r) + 3, Q)
+    # (flips on an 18x3 window and translate on 2x17 / 8x8 exhaust CBMC's memory: not registered)
+    add("C15", "c15_translate_owned_wide_17x2_mr1", "c15::translate_b::<72>(0, 17, 2, 0, 0, 17, 2, 1)", 20, T, stubs=[ROTATE_STUB])
     add("C15", "c15_translate_view_wide_17x2_mr1", "c15::translate_b::<72>(1, 18, 3, 1, 1, 18, 3, 1)", 21, T, stubs=[ROTATE_STUB], also=["C04"])
     for mode, nm in {0: "insert_row", 2: "insert_col"}.items():
         for (c, r) in [(17, 2), (2, 17), (8, 8), (33, 2), (2, 33)]:
             for spare in (False, True):
                 if spare and (c, r) != (8, 8):
                     continue
-                add("C06", f"c06_{nm}_u8_wide_{c}x{r}{'_spare' if spare else ''}", f"c06::insert_u8_b::<72, 36>({mode}, {c}, {r}, {b(spare)})", max(c, r) + 4, T)
-    for is_row in (True, False):
-        for (c, r) in [(17, 2), (2, 17), (8, 8), (33, 2), (2, 33)]:
-            add("C07", f"c07_remove_{'row' if is_row else 'col'}_u8_wide_{c}x{r}", f"c07::remove_u8_b::<72>({b(is_row)}, {c}, {r})", max(c, r) + 3, T)
-    for order, on in {0: "down", 1: "same", 2: "up"}.items():
-        for (c, r) in [(17, 3), (3, 17)]:
-            add("C14", f"c14_copy_within_owned_wide_{c}x{r}_{on}_h1", f"c14::copy_within_b::<72>(0, {c}, {r}, 0, 0, {c}, {r}, {order}, 1, false)", max(c, r) + 3, T)
-    # sorts with 17 lines (std's small-sort / run-detection thresholds sit at 16..20 elements)
-    for e, nm in {0: "sort_by_row", 1: "sort_unstable_by_row", 2: "sort_by_row_key", 4: "sort_row_ord"}.items():
-        add("C16", f"c16_{nm}_owned_wide_17x2_l0", f"c16::sort_wide({e}, 0, 17, 2, 0, 0, 17, 2, 0)", 20, T, stubs=[SORT_STUB])
-    for e, nm in {6: "sort_by_col", 7: "sort_unstable_by_col", 8: "sort_by_col_key", 10: "sort_col_ord"}.items():
-        add("C17", f"c17_{nm}_owned_wide_2x17_l0", f"c16::sort_wide({e}, 0, 2, 17, 0, 0, 2, 17, 0)", 20, T, stubs=[SORT_STUB])
+                q = Q if (c, r) in [(17, 2), (2, 17)] or (mode == 0 and (c, r) == (8, 8)) else T
+                add("C06", f"c06_{nm}_u8_wide_{c}x{r}{'_spare' if spare else ''}", f"c06::insert_u8_b::<72, 36>({mode}, {c}, {r}, {b(spare)})", max(c, r) + 4, q)
+    # (remove_col on 17+ lines and 72-byte inserts/removes exhaust CBMC's memory: not registered)
+    for (c, r) in [(17, 2), (2, 17), (8, 8), (33, 2), (2, 33)]:
+        add("C07", f"c07_remove_row_u8_wide_{c}x{r}", f"c07::remove_u8_b::<72>(true, {c}, {r})", max(c, r) + 3, Q if (c, r) in [(17, 2), (2, 17), (8, 8)] else T)
+    add("C07", "c07_remove_col_u8_wide_8x8", "c07::remove_u8_b::<72>(false, 8, 8)", 11, T)
     # 72-byte elements
     for op, nm in FAT_INPLACE.items():
-        add(FAT_PROP[op], f"{FAT_PROP[op].lower()}_{nm}_fat_owned_3x2", f"fat::inplace({op}, 0, 3, 2)", 30, T)
-        add(FAT_PROP[op], f"{FAT_PROP[op].lower()}_{nm}_fat_view_3x2", f"fat::inplace({op}, 1, 3, 2)", 30, T, also=["C04"])
-    for op, (nm, prop) in {0: ("insert_row", "C06"), 1: ("insert_col", "C06"), 2: ("remove_row", "C07"), 3: ("remove_col", "C07")}.items():
-        add(prop, f"{prop.lower()}_{nm}_fat_3x2", f"fat::reshape({op}, 3, 2, false)", 30, T)
-        if op < 2:
-            add(prop, f"{prop.lower()}_{nm}_fat_2x3_spare", f"fat::reshape({op}, 2, 3, true)", 30, T)
+        if op == 6:
+            continue  # copy_within on 72-byte elements exhausts CBMC's memory
+        add(FAT_PROP[op], f"{FAT_PROP[op].lower()}_{nm}_fat_owned_3x2", f"fat::inplace({op}, 0, 3, 2)", 30, Q)
+        add(FAT_PROP[op], f"{FAT_PROP[op].lower()}_{nm}_fat_view_3x2", f"fat::inplace({op}, 1, 3, 2)", 30, Q if op in (0, 3, 4, 5) else T, also=["C04"] if op in (3, 4) else [])
     for op, nm in {0: "copy_from_slice", 1: "clone_from_slice", 2: "copy_from_view", 3: "clone_from_view"}.items():
         for kind in (0, 1):
-            add("C14", f"c14_{nm}_fat_{'owned' if kind == 0 else 'view'}_3x2", f"fat::bulk({op}, {kind}, 3, 2)", 30, T)
+            add("C14", f"c14_{nm}_fat_{'owned' if kind == 0 else 'view'}_3x2", f"fat::bulk({op}, {kind}, 3, 2)", 30, Q)
 
 
 wide()
